@@ -227,3 +227,45 @@ def printed_values(out):
             except tlaval.TlaParseError:
                 pass
     return vals
+
+
+_NODE = re.compile(r'^(-?\d+) \[label="((?:[^"\\]|\\.)*)"(.*)\]\s*;?\s*$')
+_EDGE = re.compile(r'^(-?\d+) -> (-?\d+) \[label="((?:[^"\\]|\\.)*)"')
+
+
+def _unesc(s):
+    return s.replace('\\n', '\n').replace('\\"', '"').replace('\\\\', '\\')
+
+
+def parse_dot(path):
+    """TLC '-dump dot,actionlabels' -> (nodes {id: state dict}, initial ids, edges [(src, dst, label)])"""
+    from . import tlaval
+    nodes, init, edges = {}, [], []
+    with open(path) as f:
+        for line in f:
+            m = _EDGE.match(line)
+            if m:
+                edges.append((m.group(1), m.group(2), _unesc(m.group(3))))
+                continue
+            m = _NODE.match(line)
+            if m:
+                nid = m.group(1)
+                if nid not in nodes:
+                    nodes[nid] = tlaval.parse_state_block(_unesc(m.group(2)) + '\n')
+                if 'style = filled' in m.group(3) and nid not in init:
+                    init.append(nid)
+    return nodes, init, edges
+
+
+_LABEL = re.compile(r'^(\w+)(?:\((.*)\))?$')
+
+
+def parse_label(label):
+    """'SetSides("twosided")' -> ('SetSides', ['twosided'])"""
+    from . import tlaval
+    m = _LABEL.match(label.strip())
+    if not m:
+        return label, []
+    if m.group(2) is None or m.group(2).strip() == '':
+        return m.group(1), []
+    return m.group(1), list(tlaval.parse_value('<<' + m.group(2) + '>>'))
